@@ -166,7 +166,7 @@ class StoreJudge:
             self.v("C07", f"rejected call {op} fired tokens {trig}")
         if self.family == "fleet": self.fleet_line(op, parse_ready(line))
         if self.family == "slot": self.slot_line(op, parse_ready(line), head)
-        if self.family == "cbelt": self.cbelt_line(op, parse_ready(line), head, trig)
+        if self.family == "cbelt": self.cbelt_line(op, parse_ready(line), head, trig, line)
         self.after_line(op)
 
     # ---- slotted conveyor (C12, C13)
@@ -205,7 +205,7 @@ class StoreJudge:
         if self._stalled: self._ever_stalled = True
 
     # ---- continuous conveyor (C12, C13)
-    def cbelt_line(self, op, ready_ids, head, trig):
+    def cbelt_line(self, op, ready_ids, head, trig, line=""):
         """Observable rules.  `stalled` is the library's own notion, computed from the trace: an item is at the exit and
         no retrieval is granted.  `_stall_since` = instant since which that holds without interruption, `_stall_cause` = how
         it began (arrival of the head / a retrieval taking the reserved head / cancellation of the granted retrieval)."""
@@ -238,6 +238,28 @@ class StoreJudge:
                 self.v("C13", f"non-accumulating conveyor: item {iid} advanced to the exit at t={self.now} while the head item had been waiting there "
                               f"unreserved since t={since} (stall began by {cause})", "moves-while-stalled" if cause != "cancel" else "moves-after-cancel")
             e["ready_at"] = self.now; e["sure"] = True
+        # the library's own travel bookkeeping (anchors: conveyor_entry_time, total_interruption_time, interruption_start_time)
+        seg = line.split("|")
+        if len(seg) > 3 and not coarse:
+            for w in seg[3].split():
+                try:
+                    if w[0] == "a":
+                        iid, ent, ti = w[1:].split(":")
+                        if ent != "?" and ti not in ("?", "None") and ent != "None":
+                            ent, ti = int(ent), int(ti)
+                            if self.now != ent + travel + ti:
+                                how = "later" if self.now > ent + travel + ti else "earlier"
+                                self.v("C12", f"item {iid} entered at t={ent}, was stopped for {ti} in total and is offered at t={self.now}: {how} than entry + belt "
+                                              f"travel {travel} + time stopped = {ent + travel + ti} (it did not resume from where it stopped)", "travel-accounting")
+                                self.v("C13", f"item {iid}: offered at t={self.now}, entry {ent} + travel {travel} + time stopped {ti} = {ent + travel + ti}: on release it did "
+                                              f"not resume from where it stopped", "travel-accounting")
+                    elif w[0] == "p" and w[1:] not in ("-", "?", "None"):
+                        tob = int(w[1:])
+                        if tob < self.sdelay:
+                            self.v("C12", f"an item entered at t={self.now} when the item before it had travelled only {tob} on the belt; one item length of "
+                                          f"belt travel takes {self.sdelay}", "belt-spacing")
+                except (ValueError, IndexError):
+                    pass
         for tid, tt in trig:
             t = self.toks.get(tid)
             if t is not None and t.side == "put" and strictly and not self.acc:
